@@ -15,6 +15,7 @@ import LfsModel.DownloadConc
 import LfsModel.TQTrace
 import LfsModel.TQConcat
 import LfsModel.Backoff
+import LfsModel.Expiry
 import LfsModel.FilterProcess
 import LfsModel.CrashExec
 import LfsModel.Hooks
@@ -351,6 +352,13 @@ def c15 : List String → String
     match count.toNat?, mx.toNat? with
     | some c, some m => s!"delay {Backoff.delayMs 250 (1000 * m) c}"
     | _, _ => "bad-op"
+  | ["expired", created, atS, ins, now, margin] =>
+    -- instants in ms relative to some origin; `at` may be `none`; answer: is the action expired within the margin?
+    let at? : Option (Option Int) := if atS == "none" then some none else atS.toInt?.map some
+    (match created.toInt?, at?, ins.toInt?, now.toInt?, margin.toInt? with
+     | some c, some a, some i, some n, some m =>
+       if Expiry.expiredWithin ⟨c, a, i⟩ n m then "expired" else "usable"
+     | _, _, _, _, _ => "bad-op")
   | _ => "bad-op"
 
 def showStatus : FP.Status → String | .success => "success" | .delayed => "delayed" | .error => "error"
